@@ -1,6 +1,8 @@
 """Algebraic value numbering over MIR: one forward pass per loop-free region in reverse
 post-order, joins become selects keyed by the branch decisions, loops are summarised
 (carried leaves havoced to fresh symbols, body transfer recorded) and never unrolled."""
+import os
+import sys
 from collections import defaultdict
 from .terms import (TRUE, FALSE, mk_not, mk_and, mk_or, mk_sel, mk_icmp, mk_fcmp, iconst, sym,
                     subst_term, subterms, is_bool_term, CMP_SWAP, CMP_NEG_INT)
@@ -472,7 +474,7 @@ class Interp:
             if isinstance(v, Closure):
                 c = list(v.captures)
                 c[st[1]] = self._set_in(state, c[st[1]], path[1:], val)
-                return Closure(v.path, tuple(c))
+                return Closure(v.path, tuple(c), v.subst)
             if isinstance(v, Uninit):
                 raise Unsupported('field write into uninitialised aggregate')
             raise Unsupported('field write into %s' % type(v).__name__)
@@ -794,12 +796,20 @@ class Interp:
         except CondPlace as cp:
             def rd(root, path, window):
                 if window is not None:
-                    raise Unsupported('read of an unsized slice place')
+                    return self._read_window(state, root, path, window)
                 return self.read(state, root, path)
             return self._fork_place(frame, state, place, cp, rd)
         if window is not None:
-            raise Unsupported('read of an unsized slice place')
+            return self._read_window(state, root, path, window)
         return self.read(state, root, path)
+
+    def _read_window(self, state, root, path, window):
+        """value of a sub-array place `arr[a..b]` with literal bounds (array rest patterns `[lo @ .., c]`)"""
+        a, b, _m = window
+        tgt = self.read(state, root, path)
+        if isinstance(tgt, Arr) and a[0] == 'ic' and b[0] == 'ic' and 0 <= a[1] <= b[1] <= len(tgt.elems):
+            return Arr(tuple(tgt.elems[a[1]:b[1]]))
+        raise Unsupported('read of an unsized slice place')
 
     def eval_operand(self, frame, state, op):
         k = op['k']
@@ -974,7 +984,7 @@ class Interp:
             if a == 'tuple':
                 return Tup(ops)
             if a == 'closure':
-                return Closure(kd['path'], ops)
+                return Closure(kd['path'], ops, dict(frame.subst))
             if a == 'adt':
                 p = kd['path']
                 local = self.facts.adts.get(p)
@@ -1171,7 +1181,7 @@ class Interp:
             'loops': tuple(self.loop_stack),
             'fn': frame.f['path'], 'kind': kind, 'cond': cond, 'line': line,
             'facts': state.facts, 'guard': state.guard, 'detail': detail,
-            'known': self.cond_known(state, cond), 'expanded': frame.f['from_expansion'],
+            'known': self.cond_known(state, cond), 'expanded': frame.f['from_expansion'] and not frame.f.get('macro_local'),
         })
 
     def run_blocks(self, frame, entry, blocks, in_state, as_loop_body=False):
@@ -1511,7 +1521,7 @@ class Interp:
             env = Ref(cell.root, cell.path, env_ty['mut'])
         else:
             env = cv
-        return self.call_fn(f, [env] + list(args), ctx, ctx.frame.subst if ctx.frame else {})
+        return self.call_fn(f, [env] + list(args), ctx, cv.subst if cv.subst is not None else (ctx.frame.subst if ctx.frame else {}))
 
     # ------------------------------------------------------------ loops
     def diff_leaves(self, a, b, path, out):
@@ -1657,6 +1667,14 @@ class Interp:
                 state = State(m.store, st0.guard, st0.facts | m.facts)
         finally:
             self._cl_track = saved
+        if os.environ.get('VERIF_DEBUG_LOOP'):
+            try:
+                sys.stderr.write('concrete loop abandoned in %s bb%s after %d iteration(s): outs=%s forked=%s first=%s backs=%s exits=%s\n' % (
+                    frame.f['path'], header, _k, None if outs is None else {t: len(ss) for t, ss in outs.items()}, forked if outs is not None else None,
+                    first_forked, [b.guard != st0.guard for b in backs] if outs is not None else None,
+                    {t: [s_.guard != st0.guard for s_ in ss] for t, ss in exits.items()} if outs is not None else None))
+            except Exception as e:      # debugging aid only
+                sys.stderr.write('concrete loop abandoned (%s)\n' % e)
         del self.sites[marks[0]:]
         del self.loops[marks[1]:]
         del self.events[marks[2]:]
@@ -1739,6 +1757,15 @@ class Interp:
         summ.back_states = list(outs.get(header, []))
         summ.exit_states = {t: list(ss) for t, ss in exits.items()}
         closed = self.close_build_loop(frame, summ)
+        if closed is None:
+            from . import models as _models
+            closed = _models.close_fold_loop(self, frame, summ)
+            if closed is None:
+                searched = _models.close_search_loop(self, frame, summ)
+                if searched is not None:
+                    exits = searched
+                    for t, ss in exits.items():
+                        summ.exits[t] = self.merge_states(ss)
         # the states leaving the loop continue under the loop entry's guard extended by the
         # (loop-local) condition under which that exit is taken in the final iteration
         res = {}
